@@ -25,10 +25,13 @@ def oid(name):
     return D.enc_oid(bytes.fromhex(OID[name]))
 
 
-def name(cn, extra=(("C", "CN"), ("ST", "Beijing"), ("L", "Haidian"), ("O", "PKU"), ("OU", "CS"))):
+NAME_EXTRA = (("C", "CN"), ("ST", "Beijing"), ("L", "Haidian"), ("O", "PKU"), ("OU", "CS"))
+
+
+def name(cn, extra=NAME_EXTRA, last="CN"):
     """Name in the shape the toolkit's certgen produces (PrintableString attributes)."""
     rdns = b""
-    for k, v in list(extra) + [("CN", cn)]:
+    for k, v in list(extra) + [(last, cn)]:
         rdns += D.enc_tlv(0x31, D.enc_seq(oid(k), D.enc_tlv(0x13, v.encode())))
     return D.enc_tlv(0x30, rdns)
 
